@@ -278,8 +278,14 @@ def generate_and_run(seed, cfg):
                 k = rng.choice([1, 2, 4, len(warm)])
                 for name in warm[:k]:
                     ex.step({"op": "read", "on": u, "args": [name]})
-            d = W.gen_derivation(rng, at, [u], ex.slots)
-            d["on"] = u
+            if rng.random() < 0.3:
+                # ... or construct -> restart at once: a constructor that pre-fills the memo of what it returns
+                # is compared with a twin that derives everything, before any other read has touched either
+                d = W.gen_constructor(rng, at, live)
+                ex.ctr.inc("construct_restart_chains")
+            else:
+                d = W.gen_derivation(rng, at, [u], ex.slots)
+                d["on"] = u
             ex.step(d)
             ri = len(ex.ops) - 1
             if W.is_url(ex.slots[ri]):
@@ -340,8 +346,13 @@ def generate_and_run(seed, cfg):
         o2 = list(W.ALL_READS)
         rng.shuffle(o1)
         rng.shuffle(o2)
-        ex.step({"op": "pair_basic", "on": o, "other": t, "args": [_third(rng, ex, o), rng.getrandbits(30)]})
-        ex.step({"op": "pair_deep", "on": o, "other": t, "args": [o1, o2]})
+        # comparisons heal / warm memos too (str() re-splits the netloc): which of the two sweeps comes first is seeded
+        sweep = [{"op": "pair_basic", "on": o, "other": t, "args": [_third(rng, ex, o), rng.getrandbits(30)]},
+                 {"op": "pair_deep", "on": o, "other": t, "args": [o1, o2]}]
+        if rng.random() < 0.5:
+            sweep.reverse()
+        for op in sweep:
+            ex.step(op)
     return finish(ex, seed)
 
 
